@@ -60,7 +60,7 @@ def gen(rng, ctx):
     if tmpl == "dense":
         ni = rng.randint(1, 2)
         ng = rng.randint(4, 9)
-    cd = G.rand_circuit(rng, ni, ng, max_fanin=3, p_const=0.15, p_input_output=0.15, p_const_output=0.1, n_outputs=rng.randint(1, 3), allow_x=rng.random() < 0.25)
+    cd = G.rand_circuit(rng, ni, ng, max_fanin=3, p_const=0.15, p_input_output=0.15, p_const_output=0.1, n_outputs=rng.randint(1, 3), allow_x=rng.random() < 0.25, gate_prefix=rng.choice(["g", "g", "g", "n", "x_", "a", "u", "_n", "i_", "aux_in_"]))
     nodes = [n for n, _, _ in cd["nodes"]]
     tps = G.cd_types(cd)
     multi = [n for n in nodes if tps[n] in G.GATESN]
